@@ -182,7 +182,7 @@ class Runner:
         await fs.settle()
         msgs = fs.decode_server_msgs(ws.take_outbox())
         inits = [m for m in msgs if m["type"] == "init"]
-        rep = inits[0]["state"] if len(inits) == 1 and inits[0].get("ok") and isinstance(inits[0].get("state"), int) else 99
+        rep = inits[-1]["state"] if inits and all(m.get("ok") for m in inits) and isinstance(inits[-1].get("state"), int) else 99
         self.ev.append({"e": "probe", "rep": rep, "d": self.proj()})
         if rep == 2:
             ws.peer_send(self.payload("search"))
@@ -201,8 +201,8 @@ class Runner:
         for sym in sched:
             await self.step(sym, fine)
         await self.finish()
-        if fs.FAKE_GAPS:
-            self.ev.append({"e": "fakegap", "what": fs.FAKE_GAPS[-1], "d": {"st": 0, "cfg": 0, "idx": 0}})
+        if fs.FAKE_GAPS or fs.REAL_TIMERS:
+            self.ev.append({"e": "fakegap", "what": (fs.FAKE_GAPS or fs.REAL_TIMERS)[-1], "d": {"st": 0, "cfg": 0, "idx": 0}})
         return self.ev
 
 
@@ -310,7 +310,7 @@ def main(argv_tier=None, replay_path=None):
     verdicts, agg = validate_traces("Trace_Overlap", [{"tid": t["tid"], "ev": t["ev"]} for t in traces], consts=CONSTS)
     gaps = [e["what"] for t in traces for e in t["ev"] if e.get("e") == "fakegap"]
     if gaps:
-        raise MachineryError("the fake websocket lacks a part of the protocol API that the server code uses: %s" % gaps[0])
+        raise MachineryError("a harness seam is ineffective on this tree (fake websocket API gap or a timer on the wall clock): %s" % gaps[0])
     rej = []
     for t in traces:
         v = verdicts[t["tid"]]
